@@ -8,11 +8,14 @@ export GOFLAGS=-mod=mod GOPROXY=off GOSUMDB=off GOTOOLCHAIN=local VERIF_ROOT="$P
 id="$1"; tier="$2"; shift 2
 lower=$(echo "$id" | tr 'A-Z' 'a-z')
 mkdir -p build/bin
+# file names are per invocation: two mutants of one property may be checked at the same time
+tag="$lower-mut-$$"
+trap 'rm -f "build/overlay-$tag.json" "build/overlay-$tag-2.json" "build/overlay-$tag-3.json" "build/bin/$tag" "build/bin/$tag-race"; rm -rf "build/gen-overlay-$tag" "build/gen-overlay-$tag-sites.json"' EXIT
 base="{}"
 if [ -x "cmd/$lower/overlay.sh" ]; then
-  "cmd/$lower/overlay.sh" "build/overlay-$lower-mut.json" "$@" >/dev/null 2>&1 && base=$(cat "build/overlay-$lower-mut.json")
+  "cmd/$lower/overlay.sh" "build/overlay-$tag.json" "$@" >/dev/null 2>&1 && base=$(cat "build/overlay-$tag.json")
 fi
-python3 - "$base" "build/overlay-$lower-mut2.json" "$@" <<'PY'
+python3 - "$base" "build/overlay-$tag-2.json" "$@" <<'PY'
 import json,sys,os
 base=json.loads(sys.argv[1]) if sys.argv[1].strip() else {}
 rep=base.get("Replace",{})
@@ -20,6 +23,12 @@ for a in sys.argv[3:]:
     rel,f=a.split("=",1)
     rep.setdefault("/repo/"+rel, os.path.abspath(f))
 json.dump({"Replace":rep},open(sys.argv[2],"w"),indent=1)
+# the mutated files alone (for binaries that are built without instrumentation)
+json.dump({"Replace":{"/repo/"+a.split("=",1)[0]: os.path.abspath(a.split("=",1)[1]) for a in sys.argv[3:]}},open(sys.argv[2][:-7]+"-3.json","w"),indent=1)
 PY
-go build -overlay "build/overlay-$lower-mut2.json" -o "build/bin/$lower-mut" "./cmd/$lower" || { echo "MUTANT DOES NOT COMPILE"; exit 3; }
-"build/bin/$lower-mut" -tier "$tier" -root "$PWD" -evidence "build/mut-evidence-$lower.json"
+go build -overlay "build/overlay-$tag-2.json" -o "build/bin/$tag" "./cmd/$lower" || { echo "MUTANT DOES NOT COMPILE"; exit 3; }
+if [ -d "cmd/${lower}race" ]; then
+  # the supporting free-running pass under the Go race detector, built from the mutated files too
+  go build -race -overlay "build/overlay-$tag-3.json" -o "build/bin/$tag-race" "./cmd/${lower}race" && export VERIF_RACE_BIN="$PWD/build/bin/$tag-race"
+fi
+"build/bin/$tag" -tier "$tier" -root "$PWD" -evidence "build/mut-evidence-$lower.json"
